@@ -384,6 +384,18 @@ def hook(interp, name, args, kwargs, node):
             and len(a0.shape) == 1:
         vals = sorted(set(a0.data))
         return (NArr(vals), NArr([a0.data.index(v) for v in vals]))
+    if name == "numpy.unique" and isinstance(a0, NArr) and \
+            set(kwargs) == {"return_counts"} and kwargs["return_counts"]:
+        fl = _flat(a0.data)
+        vals = sorted(set(fl))
+        return (NArr(vals), NArr([fl.count(v) for v in vals]))
+    if name == "numpy.where" and len(args) == 3 and isinstance(a0, NArr):
+        def pick(c, x, y):
+            return x if c else y
+        xa = args[1].data if isinstance(args[1], NArr) else args[1]
+        ya = args[2].data if isinstance(args[2], NArr) else args[2]
+        return NArr(_zip(_zip(a0.data, xa, lambda c, x: (c, x)), ya,
+                         lambda cx, y: cx[1] if cx[0] else y))
     if name == "numpy.finfo":
         from .interp import Obj
         return Obj(None, {"eps": Fraction(1, 2 ** 52)})
